@@ -718,10 +718,15 @@ class Condition(ConditionLike):
         elif len(func_args["POSITIONAL_OR_KEYWORD"]) == 1 and not any(
             func_args[i] for i in ("VAR_POSITIONAL", "VAR_KEYWORD")
         ):
-            # single pos-or-kw and nothing else, spec val is just that single value:
-            spec_val = copy.deepcopy(next(iter(self.callable.kwargs.values())))
+            # single pos-or-kw and nothing else, spec val is just that single value
+            # (which some DSL methods store positionally):
+            single_arg = list(self.callable.args) + list(self.callable.kwargs.values())
+            spec_val = copy.deepcopy(single_arg[0])
             if cast_types:
-                spec_val = INV_DTYPE_LOOKUP[spec_val]
+                if isinstance(spec_val, (list, tuple)):
+                    spec_val = [INV_DTYPE_LOOKUP[i] for i in spec_val]
+                else:
+                    spec_val = INV_DTYPE_LOOKUP[spec_val]
 
         elif len(func_args["POSITIONAL_OR_KEYWORD"]) > 1 and not any(
             func_args[i] for i in ("VAR_POSITIONAL", "VAR_KEYWORD")
